@@ -196,3 +196,62 @@ func Mutate(r *rng.R, w0 *World, c Cfg) (*World, string) {
 	}
 	return w, "none"
 }
+
+// SiblingCIDR returns a CIDR of the same size disjoint from c: its sibling in the parent block (touching) when far is false,
+// the sibling of its parent's first half/second half (not touching) when far is true.
+func SiblingCIDR(c string, far bool) (string, bool) {
+	lo, _, ok := CIDRRange(c)
+	if !ok {
+		return "", false
+	}
+	var n int
+	fmt.Sscanf(c[indexByte(c, '/')+1:], "%d", &n)
+	bit := n - 1
+	if far {
+		bit = n - 2
+	}
+	if bit < 0 || n == 0 {
+		return "", false
+	}
+	nlo := lo ^ (uint32(1) << uint(31-bit))
+	return fmt.Sprintf("%s/%d", IPString(nlo), n), true
+}
+
+func indexByte(s string, b byte) int {
+	for i := 0; i < len(s); i++ {
+		if s[i] == b {
+			return i
+		}
+	}
+	return -1
+}
+
+// MoveCIDR moves one ipBlock of one rule to a disjoint block of the same size, keeping the ports: the workload loses a
+// connection to one range and gains the textually identical connection to another.
+func MoveCIDR(r *rng.R, w0 *World) (*World, bool) {
+	w := w0.Clone()
+	type loc struct{ ib *IPB }
+	locs := []*IPB{}
+	for i := range w.NetPols {
+		for _, rules := range [][]NPRule{w.NetPols[i].Ingress, w.NetPols[i].Egress} {
+			for ri := range rules {
+				for pi := range rules[ri].Peers {
+					if ib := rules[ri].Peers[pi].IPBlock; ib != nil {
+						locs = append(locs, ib)
+					}
+				}
+			}
+		}
+	}
+	if len(locs) == 0 {
+		return w, false
+	}
+	ib := locs[r.Intn(len(locs))]
+	nc, ok := SiblingCIDR(ib.CIDR, r.P(0.5))
+	if !ok {
+		return w, false
+	}
+	ib.CIDR = nc
+	ib.Except = nil
+	return w, true
+}
